@@ -13,7 +13,7 @@ func init() {
 		ID:          "C18",
 		Level:       "other",
 		Run:         c18,
-		Explanation: "Round-trip identity for all values is not computed; decided instead are the structural facts it rests on. (1) Writer/reader agreement: the ordered wire schema (fixed-width big-endian integers, length-prefix + payload pairs, and which field each item carries) extracted from the go/ssa form of each of the seven frame types' WriteTo equals the one extracted from its ReadFrom; the same for the position map and the chunk framing (u16 length, 0 = end, empty writes skipped, never a zero-length chunk). (2) Tag table: ReadStreamFrame constructs, for each of the seven constants, the type whose Type() returns that constant, rejects everything else, and WriteStreamFrame writes Type() with the width the reader reads. (3) Split independence: decoders read only through encoding/binary.Read, io.ReadFull and internal.ReadN (which loop until complete) - never a bare Read; ReadFullAt loops until the buffer is full or an error occurs. (4) Error discipline: every read error in a decoder is returned; an io.EOF in the middle of an item is converted to io.ErrUnexpectedEOF where io.EOF would mean a clean end (frames, chunk reader). (5) Allocation: no make is sized by a value decoded from the stream; the chunk reader's slice bound is a uint16 against a 65535-byte array (decided from the types). (6) Narrowing: a length converted to a narrower wire integer is bounded (chunk length <= 65535 on every path).",
+		Explanation: "Round-trip identity for all values is not computed; decided instead are the structural facts it rests on. (1) Writer/reader agreement: the ordered wire schema (fixed-width big-endian integers, length-prefix + payload pairs, and which field each item carries) extracted from the go/ssa form of each of the seven frame types' WriteTo equals the one extracted from its ReadFrom; the same for the position map and the chunk framing (u16 length, 0 = end, empty writes skipped, never a zero-length chunk). (2) Tag table: ReadStreamFrame constructs, for each of the seven constants, the type whose Type() returns that constant, rejects everything else, and WriteStreamFrame writes Type() with the width the reader reads. (3) Split independence: decoders read only through encoding/binary.Read, io.ReadFull and internal.ReadN (which loop until complete) - never a bare Read; ReadFullAt loops until the buffer is full or an error occurs. (4) Error discipline: every read error in a decoder is returned; an io.EOF in the middle of an item is converted to io.ErrUnexpectedEOF where io.EOF would mean a clean end (frames, chunk reader). (5) Allocation: no make is sized by a value decoded from the stream; the chunk reader's slice bound is a uint16 against a 65535-byte array (decided from the types). (6) Narrowing: a length converted to a narrower wire integer is bounded (chunk length <= 65535 on every path). The chunk end marker is written only by a plain Close on the success path of the body producer (never by a defer), and every success exit after the chunk writer was created has written it.",
 		NotDecided:  "identity of decoded values for all inputs (follows from schema equality plus encoding/binary's own round-trip), memory use of a running process, names longer than 4 GiB on the writer side.",
 		Assumptions: []string{"go/ssa faithfully represents the source", "encoding/binary.Read/Write and io.ReadFull/io.CopyN behave as documented"},
 	})
